@@ -105,7 +105,7 @@ CHECKS = {
   technique="TLA+ spec (Evidence.tla) checked with TLC: every single-field replacement must fail; fields named by the spec tampered in real exports and verified with the real Verifier against live sessions with an independent chip"),
  "C15": dict(
   category="model_checking",
-  text="Envelope.tla models the three nested CBOR envelopes (magic, version, SHA-256, payload) with Import's checks in code order and Corrupt over 9 component classes x 3 levels; TLC checks RoundTrip for every subset of file kinds / evidence kinds, Detects (after one corruption the import is Reject or identical) and ForeignOrNewer, and prints the expected outcome of each (level, component) pair. Binding: documents from live sessions (all mechanisms), their no-evidence and fewer-files variants and the empty document are exported with the real ToCbor; EVERY byte position x substitution set, every truncation length and extensions are imported with the real UnmarshalVerifiableDoc / NewDocumentFromCbor; an independent minimal CBOR walker classifies each position into the specification's (level, component) class and the real outcome must be the specified one: error, or files + evidence + parsed view identical to the original; all documents are exported before any blob is imported (exports must not share state).",
+  text="Envelope.tla models the three nested CBOR envelopes (magic, version, SHA-256, payload) with Import's checks in code order and Corrupt over 9 component classes x 3 levels; TLC checks RoundTrip for every subset of file kinds / evidence kinds, Detects (after one corruption the import is Reject or identical) and ForeignOrNewer, and prints the expected outcome of each (level, component) pair. Binding: documents from live sessions (all mechanisms), their no-evidence and fewer-files variants and the empty document are exported with the real ToCbor; EVERY byte position x substitution set (incl. the masks that turn a version number into the next one), every truncation length and extensions are imported with the real UnmarshalVerifiableDoc / NewDocumentFromCbor; an independent minimal CBOR walker classifies each position into the specification's (level, component) class and the real outcome must be the specified one: error, or files + evidence + parsed view identical to the original; all documents are exported before any blob is imported (exports must not share state).",
   design_ref="DESIGN.md §6 C15",
   note="The third-party CBOR decoder is abstracted as well-formed-or-not; only the outer version-down is accepted with unchanged content.",
   technique="TLA+ spec (Envelope.tla) model-checked with TLC; expected outcome per (level, component) class replayed over every byte position of real exports"),
